@@ -346,9 +346,37 @@ func Edits(d *Dialect) []Edit {
 			c.SetGeneratedExpr(&schema.GeneratedExpr{Expr: "a + 2", Type: "STORED"})
 		}, []string{mt("ModifyColumn(g)[generated]")}},
 	}
+	// text-like columns whose default is a bare literal that looks like a number but is not in canonical
+	// form: its exact spelling is the value (what evaluating `default = "007"` from HCL produces).
+	for i, lit := range []string{"007", "2.50", "1e3"} {
+		lit := lit
+		es = append(es, Edit{fmt.Sprintf("str_default_numeric_like_%d", i), []string{"col:b"}, func(s *schema.Schema) {
+			C(T(s, "t"), "b").Default = &schema.Literal{V: lit}
+		}, []string{mt("ModifyColumn(b)[default]")}})
+		if d != SQLite {
+			es = append(es, Edit{fmt.Sprintf("enum_default_numeric_like_%d", i), []string{"col:e", "enum:status"}, func(s *schema.Schema) {
+				c := C(T(s, "t"), "e")
+				et := c.Type.Type.(*schema.EnumType)
+				et.Values = append(et.Values, lit)
+				c.Default = &schema.Literal{V: lit}
+			}, map[*Dialect][]string{MySQL: {mt("ModifyColumn(e)[default,type]")}, Postgres: {"ModifyObject(status)", mt("ModifyColumn(e)[default]")}}[d]})
+		}
+	}
+	if d != Postgres {
+		// same expression, other storage kind (PostgreSQL has STORED only).
+		es = append(es, Edit{"col_generated_kind", []string{"col:g"}, func(s *schema.Schema) {
+			c := C(T(s, "t"), "g")
+			c.Attrs = dropAttr[*schema.GeneratedExpr](c.Attrs)
+			c.SetGeneratedExpr(&schema.GeneratedExpr{Expr: "a + 1", Type: "VIRTUAL"})
+		}, []string{mt("ModifyColumn(g)[generated]")}})
+	}
 	if d == Postgres {
 		// PostgreSQL cannot change a generation expression in place: the differ reports an error.
-		es[len(es)-1].Expect = []string{"ERROR"}
+		for i := range es {
+			if es[i].Name == "col_generated_changed" {
+				es[i].Expect = []string{"ERROR"}
+			}
+		}
 		es = append(es, Edit{"col_generated_dropped", []string{"col:g"}, func(s *schema.Schema) {
 			c := C(T(s, "t"), "g")
 			c.Attrs = dropAttr[*schema.GeneratedExpr](c.Attrs)
